@@ -19,7 +19,7 @@ func init() {
 			"(stream-copies) len(handlers)+1 copies, handler i gets copy i, the flow keeps the last, zero handlers copy nothing; " +
 			"(tool-runinfo) both tool-call runners derive run info from the task and set the tool-call id; " +
 			"(designation) graph-level handlers are options without path, node handlers have a one-element path equal to the node key.",
-		decided:    []string{"pairing-node", "pairing-graph", "handler-isolation", "stream-copy-isolation", "inject-iff-not-self", "stream-copies", "tool-runinfo", "designation"},
+		decided:    []string{"pairing-node", "pairing-graph", "handler-isolation", "stream-copy-isolation", "inject-iff-not-self", "stream-copies", "tool-runinfo", "designation", "init-detaches"},
 		notDecided: []string{"payload contents", "per-handler timing filter semantics", "behaviour of user handlers"},
 		run:        runC10,
 	})
